@@ -123,4 +123,21 @@ func c19Extra(r *core.Run, pkg string) {
 		}
 		o.Site(n, pkg)
 	})
+
+	r.Check("D2/K8/backup-name-from-a-fresh-clock-read", "a backup is named after the moment of the rotation: no BackupFilename result depends on the rule's stored rotatedTime (rotate asks for the name before the rule is marked rotated, so a name built from the stored stamp repeats and the second rotation renames over the first backup)", func(o *core.O) {
+		n := 0
+		for _, f := range p.PkgFuncs(pkg) {
+			if f.Name() != "BackupFilename" || f.Parent() != nil || f.Signature.Recv() == nil {
+				continue
+			}
+			n++
+			r.Fn(core.FuncName(f))
+			for _, ret := range core.Returns(f) {
+				if core.DependsOn(core.Result(ret, 0), core.FieldLoad("DailyRotateRule.rotatedTime")) {
+					o.Fail(p.InstrPos(ret), "%s builds the backup name from the stored rotatedTime: two rotations without an intervening clock read get the same name and the later one overwrites the earlier backup", core.FuncName(f))
+				}
+			}
+		}
+		o.Site(n, pkg)
+	})
 }
